@@ -130,7 +130,10 @@ def step (st : Family Int) (ws : List String) : Family Int × String :=
   match ws with
   | "merge" :: rest =>
     match rest.mapM parseBlock with
-    | some (b :: bs) => (st, "ok " ++ showBlock (mergeBlocks aggInt (b :: bs)))
+    | some (b :: bs) =>
+      let tol := Generated.C03.scannerToleratesEmptyBucket
+      if mergeFails tol (b :: bs) then (st, "err merge")
+      else (st, "ok " ++ showBlock (mergeBlocks tol aggInt (b :: bs)))
     | _ => (st, "bad-op")
   | ["reset"] => (Family.empty, "ok")
   | "flush" :: rest =>
@@ -143,7 +146,8 @@ def step (st : Family Int) (ws : List String) : Family Int × String :=
       -- a key without announced size makes the split undefined: answered by `bad-op` below
       let p : Params Int := { threshold := th, maxFileSize := mx,
                               size := fun k _ => match lookup sizes k with | some n => n | none => 0,
-                              shuffle := id, rebind := Generated.C03.streamWriterRebinds }
+                              shuffle := id, rebind := Generated.C03.streamWriterRebinds,
+                              tolerant := Generated.C03.scannerToleratesEmptyBucket }
       let (s, o) := compact aggInt p st
       let outKeys := (mergedEntries aggInt p (st.l0 ++ pickUp st.l0 st.l1)).map (·.1)
       let sized := outKeys.all (fun k => (lookup sizes k).isSome)
